@@ -11,7 +11,7 @@
    high-level operation, are judged by the same statement evaluated per case in Coq (Corr.C03). *)
 From Coq Require Import ZArith List Arith.
 From PM Require Import Model.Data Model.Mark Model.Tree Model.StepMap Model.Step Spec.Tokens
-  Proofs.TokenBasics Proofs.ReplaceTokens Proofs.SliceShape Proofs.StepFaithful.
+  Proofs.TokenBasics Proofs.ReplaceTokens Proofs.SliceShape Proofs.StepFaithful Proofs.TokenLaws Proofs.AroundLaws.
 Import ListNotations.
 Local Open Scope nat_scope.
 
@@ -27,3 +27,24 @@ Theorem C03_replace_step_map_faithful : forall s (from to : nat) sl structure do
   (forall p, to <= p -> nth_error T' (Z.to_nat (map m (Z.of_nat p) 1)) = nth_error T p).
 Proof. exact replace_step_map_faithful. Qed.
 Print Assumptions C03_replace_step_map_faithful.
+
+(* replace-around steps (lift, wrap, set_block_type, set_node_markup compile to these): with a non-empty
+   gap, from <= gap_from < gap_to <= to and insert within the slice, the two-range map is faithful: the size
+   changes by the sum of (new - old) over the two ranges, and every old token before the step, inside the
+   gap, and after the step is found at the mapped position.  (With an EMPTY gap the statement is false of
+   the code — known finding C03-replace-around-empty-gap; that is why gap_from < gap_to is a hypothesis.) *)
+Theorem C03_replace_around_map_faithful : forall s (from to gf gt : nat) sl (ins : nat) structure doc d',
+  check s doc = true ->
+  Shape s (sl_content sl) (sl_open_start sl) (sl_open_end sl) ->
+  from <= gf -> gf < gt -> gt <= to -> ins <= length (IT s sl) ->
+  apply s (SReplaceAround from to gf gt sl ins structure) doc = ROk d' ->
+  let m := get_map s (SReplaceAround from to gf gt sl ins structure) in
+  let T := DT s doc in
+  let T' := DT s d' in
+  (Z.of_nat (length T') = Z.of_nat (length T) + (Z.of_nat ins - (Z.of_nat gf - Z.of_nat from))
+                          + ((slice_size s sl - Z.of_nat ins) - (Z.of_nat to - Z.of_nat gt)))%Z /\
+  (forall p, p < from -> nth_error T' (Z.to_nat (map m (Z.of_nat p) 1)) = nth_error T p) /\
+  (forall p, gf <= p -> p < gt -> nth_error T' (Z.to_nat (map m (Z.of_nat p) 1)) = nth_error T p) /\
+  (forall p, to <= p -> nth_error T' (Z.to_nat (map m (Z.of_nat p) 1)) = nth_error T p).
+Proof. exact around_step_map_faithful. Qed.
+Print Assumptions C03_replace_around_map_faithful.
